@@ -172,7 +172,16 @@ class ActionDefinition:
         elif isinstance(config, dict):
             # 📝 Handle object definition: {"type": "myAction", ...}
             logger.debug("🔧 Parsing action definition from dict: %s", config)
-            self.type: str = config.get("type", "UnknownAction")
+            action_type = config.get("type", "UnknownAction")
+            # 🛡️ The type names the implementation to run. A non-string was
+            #    accepted here and failed later, inside `send()`, with a raw
+            #    "'int' object has no attribute 'startswith'".
+            if not isinstance(action_type, str):
+                raise InvalidConfigError(
+                    "Action 'type' must be a string, got "
+                    f"{action_type!r} in {config!r}."
+                )
+            self.type: str = action_type
             self.params: Optional[Dict[str, Any]] = config.get("params")
         else:
             # ❌ Reject invalid definitions
